@@ -27,6 +27,7 @@ def main():
         mod = importlib.import_module("p_" + prop.lower())
         sys.exit(mod.replay(args.path))
     prop = args.prop.upper()
+    os.environ["VERIF_TIER_EFFECTIVE"] = args.tier
     chk = common.Check(prop, args.tier, seed)
     if prop in engine_props.PROPS:
         sys.exit(engine_check.run(chk, engine_props.PROPS[prop]))
